@@ -59,6 +59,10 @@ def jobs_misc(rng, thorough):
 def run(ctx: core.Ctx):
     ctx.lean_stage(extra_props=("C20x", "Tie"))
     b2check.run_b2(ctx, jobs, ["C20"], label="log scenarios", log_visible=True)
+    # exhaustive within a bound: every schedule up to 3 (thorough: 5) deviations from the canonical one, on small scenarios
+    _small = gen.small_scenarios()
+    b2check.run_systematic(ctx, [_small[n] for n in ['log', 'traffic', 'link-drop']], ["C20"], depth=5 if ctx.tier == "thorough" else 3,
+                           label="log, traffic, link-drop", max_runs=60000 if ctx.tier == "thorough" else 6000)
     b2check.run_b2(ctx, jobs_preempt, ["C20"], label="log scenarios with preemption (monitor only for the log)", accept_log_size=0)
     b2check.run_b2(ctx, jobs_stall, ["C20"], label="log scenarios with stalled threads (monitor only)", accept=False)
     b2check.run_b2(ctx, lambda rng, th: [(gen.with_second(rng, gen.conn_log(rng)), rng.randrange(10 ** 9), rng.choice([0, 3])) for _ in range(3000 if th else 80)], ["C20two"],
